@@ -4,7 +4,10 @@ from auction_common import impl_exec, impl_exec_multi, nontrivial, classify  # n
 
 SHARDS = {'quick': 1, 'thorough': 16}
 TITLE = 'Auction accepts exactly the calls the Laws of bridge allow'
-REQUIRED = ['auction_refines_laws', 'take_bid_accepts_iff_legal', 'illegal_reported_and_state_unchanged',
+LEAN_TARGETS = ['BridgeVerif.Props.C01', 'BridgeVerif.Translated.Auction']
+AUDIT_PROPS = ['C01', 'Translated.Auction']
+REQUIRED = ['translated_auction_refines_laws', 'translated_take_bid_is_model', 'Translated.Auction.init_translated', 'Translated.Auction.take_bid_translated', 'Translated.Auction.run_translated', 'Translated.Auction.contract_translated',
+            'auction_refines_laws', 'take_bid_accepts_iff_legal', 'illegal_reported_and_state_unchanged',
             'avail_vector_is_legal_set']
 RULE = ('legal-biased random auctions played to completion through BiddingPhase.take_bid with calls the Laws forbid '
         'offered at every position (X/XX and bids at or below the last bid preferred), all 4 dealers x 4 vulnerabilities, '
@@ -16,6 +19,9 @@ REQUIRED_COUNTERS = {'quick': ['illegal_offered', 'has_double', 'has_redouble', 
 TRUSTED = ['numpy float vector of 0.0/1.0 read through BiddingPhase.available_bid']
 ASSUMPTIONS = ['CPython list/dict semantics', 'numpy slice assignment on a 38-vector']
 
+
+# areas of the pure core whose TRANSLATION (Generated/PyCore.lean) is run next to the real code in this check
+TRANSLATED_AREAS = ('auction',)
 
 def cases(ctx):
     return ac.gen_cases(ctx, 400 if ctx.quick else 1500, 0 if ctx.quick else 3)
